@@ -2,6 +2,9 @@
 pub mod common;
 pub mod c01;
 pub mod c02;
+pub mod c03;
+pub mod c08;
+pub mod c10;
 
 use crate::core::{Block, Report};
 
@@ -9,6 +12,9 @@ pub fn collect(prop: &str, blocks: &mut Vec<Block>, setup: &mut Report) {
     match prop {
         "C01" => c01::collect(blocks, setup),
         "C02" => c02::collect(blocks, setup),
+        "C03" => c03::collect(blocks, setup),
+        "C08" => c08::collect(blocks, setup),
+        "C10" => c10::collect(blocks, setup),
         "list" => {}
         _ => setup.machinery.push(format!("unknown property {prop}")),
     }
